@@ -323,6 +323,105 @@ func lastType(sc *scenario) uint {
 	return uint(tt)
 }
 
+// ---- directed scenarios: kept from earlier disagreements and from the defects found on the
+// pinned tree; they are executed against the implementation on every run, before the
+// random ones.
+type scriptT struct {
+	client bool
+	stored string
+	steps  []string
+}
+
+var scripts = []scriptT{
+	// C08: select reply with a present but empty format list
+	{client: true, steps: []string{"run", "valid", "ready", "msg:" + string(protMsg("select", "1", "0", `[{"format":[ ]}]`)), "valid"}},
+	{client: true, steps: []string{"run", "valid", "ready", "msg:" + string(protMsg("select", "1", "0", `[{"format":[]}]`))}},
+	// C04: select reply cannot be sent (transport closes between the closed query and the write / before)
+	{steps: []string{"run", "valid", "approve", "wf1:valid", "valid", "timeout"}},
+	{steps: []string{"run", "valid", "approve", "wf0:valid", "valid", "timeout"}},
+	// C04: approval while the ready message cannot be sent
+	{steps: []string{"run", "valid", "wf0:approve", "timeout", "deferred"}},
+	{steps: []string{"run", "valid", "wf1:approve", "timeout", "deferred"}},
+	// C04/C11: close announce / confirm during the handshake, before Run, while pending
+	{steps: []string{"run", "valid", "deferred", "announce", "approve", "timeout"}},
+	{steps: []string{"deferred", "announce", "run", "timeout"}},
+	{steps: []string{"run", "confirm", "valid", "timeout"}},
+	// C11: graceful close, both roles of the exchange, and the races around it
+	{client: true, stored: "idA", steps: []string{"run", "valid", "ready", "valid", "valid", "accreq", "acc:idA", "closeS", "confirm", "deferred"}},
+	{client: true, stored: "idA", steps: []string{"run", "valid", "ready", "valid", "valid", "accreq", "acc:idA", "closeS", "deferred", "confirm"}},
+	{client: true, steps: []string{"run", "valid", "ready", "valid", "valid", "acc:idB", "deferred", "announce", "closeS", "deferred"}},
+	{client: true, steps: []string{"run", "valid", "ready", "valid", "valid", "acc:idB", "wclosed", "closeS", "connerr", "deferred"}},
+	{client: true, steps: []string{"run", "valid", "ready", "valid", "valid", "acc:idB", "closeS", "connerr", "deferred", "closeU"}},
+	{client: true, steps: []string{"run", "valid", "ready", "valid", "valid", "acc:idB", "spine", "wclosed", "spine", "connerr"}},
+	// C09: wrong / missing id while one is stored; unknown id reported once
+	{client: true, stored: "idA", steps: []string{"run", "valid", "ready", "valid", "valid", "acc:idB", "acc:idA"}},
+	{stored: "idA", steps: []string{"run", "valid", "approve", "valid", "valid", "valid", "msg:" + string(accMethods("null")), "acc:idA"}},
+	{steps: []string{"run", "valid", "approve", "valid", "valid", "valid", "acc:", "data", "spine"}},
+	// C01/C06: data before completion, pending without approval, cancel
+	{steps: []string{"run", "valid", "data", "data", "ready", "timeout", "data", "abort", "data", "deferred"}},
+	{steps: []string{"run", "valid", "data", "approve", "data", "valid", "valid", "valid", "data", "acc:idA", "data"}},
+}
+
+func scriptEvent(r *vh.Rng, step string, st int, storedID string, pay *int) []*event {
+	e := &event{wf: -1, allow: true}
+	for strings.HasPrefix(step, "wf") && strings.Contains(step, ":") && len(step) > 3 && step[2] >= '0' && step[2] <= '9' {
+		e.wf = int(step[2] - '0')
+		step = step[4:]
+	}
+	recv := func(m []byte) []*event {
+		v := viewOf(m)
+		e.kind, e.msg, e.coqEv = "recv", m, "(ERecv "+v.coq+")"
+		if v.isAnnounce {
+			e.slow = true
+		}
+		return []*event{e}
+	}
+	switch {
+	case step == "run":
+		e.kind, e.coqEv = "run", "ERun"
+	case step == "valid":
+		return recv(validFor(r, st, storedID, true))
+	case step == "ready":
+		return recv(helloMsg(r, "ready", "60000", ""))
+	case step == "accreq":
+		return recv(ctl(`{"accessMethodsRequest":[]}`))
+	case strings.HasPrefix(step, "acc:"):
+		return recv(accMethods(`"` + step[4:] + `"`))
+	case strings.HasPrefix(step, "msg:"):
+		return recv([]byte(step[4:]))
+	case step == "data":
+		*pay++
+		return recv(dataMsg(*pay))
+	case step == "announce":
+		return recv(closeMsg("announce"))
+	case step == "confirm":
+		return recv(closeMsg("confirm"))
+	case step == "timeout":
+		e.kind, e.coqEv = "timeout", "ETimeout"
+	case step == "connerr":
+		e.kind, e.coqEv = "connerr", "EConnErr"
+	case step == "wclosed":
+		e.kind, e.coqEv = "wclosed", "EWClosed"
+	case step == "approve":
+		e.kind, e.coqEv = "approve", "EApprove"
+	case step == "abort":
+		e.kind, e.coqEv = "abort", "EAbort"
+	case step == "closeS":
+		e.kind, e.safe, e.reason, e.coqEv = "close", true, true, "(EClose true 0 true)"
+	case step == "closeU":
+		e.kind, e.safe, e.coqEv = "close", false, "(EClose false 0 false)"
+	case step == "spine":
+		*pay++
+		e.kind, e.pay = "spine", *pay
+		e.coqEv = fmt.Sprintf("(ESpineWrite %d)", e.pay)
+	case step == "deferred":
+		e.kind, e.coqEv, e.slow = "deferred", "EDeferred", true
+	default:
+		panic("unknown script step " + step)
+	}
+	return []*event{e}
+}
+
 type result struct {
 	obs     []string
 	outcome string // "", "panic", "hang"
@@ -383,7 +482,7 @@ type scenario struct {
 	outcome       string
 }
 
-func runScenario(r *vh.Rng, maxLen int) *scenario {
+func runScenario(r *vh.Rng, maxLen int, script *scriptT) *scenario {
 	sc := &scenario{kinds: map[string]int{}}
 	env := &scenEnv{left: -1}
 	role := ship.ShipRoleServer
@@ -396,19 +495,38 @@ func runScenario(r *vh.Rng, maxLen int) *scenario {
 	if r.Chance(45) {
 		sc.stored = vh.Pick(r, shipIDs[:2])
 	}
+	if script != nil {
+		role, sc.role, sc.stored = ship.ShipRoleServer, "Server", script.stored
+		if script.client {
+			role, sc.role = ship.ShipRoleClient, "Client"
+		}
+	}
 	conn := ship.NewConnectionHandler(&fakeInfo{env}, &fakeWriter{env}, role, sc.local, "ski", sc.stored)
 	started := false
 	pay := 0
 	coop := r.Chance(45)
 	slowLeft := 3
 	length := 3 + r.Intn(maxLen-2)
+	if script != nil {
+		length = 1000
+	}
+	step := 0
 	fastSince := time.Now()
 	for len(sc.events) < length {
+		if script != nil && step >= len(script.steps) {
+			break
+		}
 		snap := conn.VerifSnapshot()
 		env.mu.Lock()
 		wclosed := env.closed
 		env.mu.Unlock()
-		evs := genEvent(r, int(snap.State), started, snap.RemoteShipID, &pay, coop, &slowLeft, wclosed, snap.ReaderSet)
+		var evs []*event
+		if script != nil {
+			evs = scriptEvent(r, script.steps[step], int(snap.State), snap.RemoteShipID, &pay)
+			step++
+		} else {
+			evs = genEvent(r, int(snap.State), started, snap.RemoteShipID, &pay, coop, &slowLeft, wclosed, snap.ReaderSet)
+		}
 		for k := 0; k < len(evs); k++ {
 			e := evs[k]
 			before := conn.VerifSnapshot()
@@ -552,7 +670,11 @@ func main() {
 			r := vh.NewRng(seeds[i])
 			var sc *scenario
 			for try := 0; try < 3; try++ {
-				sc = runScenario(r, *maxLen)
+				var script *scriptT
+				if i < len(scripts) {
+					script = &scripts[i]
+				}
+				sc = runScenario(r, *maxLen, script)
 				if !sc.discarded {
 					break
 				}
